@@ -121,6 +121,13 @@ def _gen(case):
         error = error * emag
     else:
         emag, emaglab = 1.0, 'plain'
+    # axis (vii): dtype kind of the image and of the error map, independently (plain magnitude only: the narrow
+    # dtypes have their own ranges)
+    ddt = edt = 'float64'
+    if cls != 'intdata' and data.dtype == np.float64 and mag == 1.0 and rng.random() < 0.3:
+        data, ddt = G.to_dtype(rng, data, 'data')
+    if error is not None and error.dtype == np.float64 and emag == 1.0 and rng.random() < 0.25:
+        error, edt = G.to_dtype(rng, error, 'error')
     mask = None
     if cls == 'masked':
         mask = G.gen_mask(rng, shape, str(rng.choice(['random', 'block', 'rowcol', 'dense'])))
@@ -129,11 +136,20 @@ def _gen(case):
     elif rng.random() < (0.7 if cls in ('poke', 'nddata') else 0.3):
         mask = G.gen_mask(rng, shape, str(rng.choice(['random', 'block', 'rowcol', 'empty'])))
 
+    # axis (xi): caller-owned all-False / all-True masks in any class
+    r = rng.random()
+    maskkind = 'none' if mask is None else 'generated'
+    if cls not in ('masked', 'fullmask') and r < 0.09:
+        mask = np.zeros(shape, bool) if r < 0.06 else np.ones(shape, bool)
+        maskkind = 'all_false' if r < 0.06 else 'all_true'
     kind = str(rng.choice(G.KINDS))
     size = None
     if min(shape) <= 3:
         size = str(rng.choice(['tiny', 'small']))
     params, ext = G.gen_shape(rng, kind, size)
+    halfint = False
+    if rng.random() < 0.15:
+        params, halfint = G.snap_half(rng, kind, params), True      # axis (ix): edges exactly on pixel centres / edges
     npos = 1
     if cls == 'multi':
         npos = int(rng.integers(2, 6))
@@ -151,7 +167,8 @@ def _gen(case):
     layout = {k: str(rng.choice(G.LAYOUTS)) for k in ('data', 'error', 'mask')}
     return dict(shape=shape, style=style, data=data, error=error, mask=mask, kind=kind, params=params, ext=ext,
                 positions=positions, locs=locs, scalar=scalar, method=method, subpixels=subpixels,
-                mag=mag, maglab=maglab, emag=emag, emaglab=emaglab, layout=layout)
+                mag=mag, maglab=maglab, emag=emag, emaglab=emaglab, layout=layout, ddt=ddt, edt=edt,
+                maskkind=maskkind, halfint=halfint)
 
 
 # ----------------------------------------------------------------------
@@ -266,6 +283,16 @@ def run_case(case):
         case.note('magnitude_error:' + g['emaglab'])
     if abs(g['shape'][0] - g['shape'][1]) >= 2:
         case.note('shape:nonsquare')
+        case.note('axis2_shape:wide' if g['shape'][1] > g['shape'][0] else 'axis2_shape:tall')
+    case.note('axis2_dtype_data:' + (g['ddt'] if g['ddt'] != 'float64' else str(data.dtype)))
+    if error is not None:
+        case.note('axis2_dtype_error:' + (g['edt'] if g['edt'] != 'float64' else str(error.dtype)))
+    case.note('axis2_mask:' + g['maskkind'])
+    for loc in g['locs']:
+        case.note('axis2_position:' + loc)
+    if g['halfint']:
+        case.note('axis2_half_integer_sizes')
+    base['error_dtype'] = 'none' if error is None else str(error.dtype)
 
     # axis (ii): call form of every aperture argument (half of the cases plain)
     canon, labels, posform = dict(params), {}, 'as_is'
@@ -287,6 +314,14 @@ def run_case(case):
                    dict(base, form=labels.get('theta', 'float')), held=held, given=theta_mine)
         canon['theta'] = held           # conversions may differ from mine in the last bits: downstream uses the held value
     params = canon
+    # axis (x): the aperture handed to the library has a history (copy / indexed out of a larger one / used before)
+    hist = 'fresh'
+    if cls not in ('region', 'sky') and rng.random() < 0.4:
+        ap, hist = G.with_history(rng, ap, data)
+    case.note('axis2_aperture_history:' + hist)
+    base['history'] = hist
+    snap0 = G.ap_snapshot(ap)
+    case.params.update(history=hist, dtypes=[g['ddt'], g['edt']], maskkind=g['maskkind'])
     case.params.update(params={k: round(float(v), 6) for k, v in params.items()}, forms=labels, posform=posform,
                        mag=g['mag'], emag=g['emag'], layout=g['layout'])
     case.digest = core.arr_digest(data, error, mask, np.array([params[k] for k in sorted(params)], float),
@@ -325,6 +360,8 @@ def run_case(case):
     if cls == 'sky':
         form = 'sky'
         tbl = aperture_photometry(_cp(data), sky, error=_cp(error), mask=_cp(mask), wcs=wcs, **kw)
+        _second_use(case, tbl, lambda: aperture_photometry(_cp(data), sky, error=_cp(error), mask=_cp(mask), wcs=wcs,
+                                                           **kw), sky, sky._pv_snapshot, dict(base, form='sky'))
         _sky_extras(case, rng, tbl, sky, ap, wcs, data, error, mask, kw, base)
     elif cls == 'nddata':
         form = 'nddata'
@@ -348,7 +385,15 @@ def run_case(case):
             form = 'positional'
             tbl = aperture_photometry(_cp(data), ap, _cp(error), _cp(mask), method, subpix)
         else:
-            tbl = aperture_photometry(_cp(data), ap, error=_cp(error), mask=_cp(mask), **kw)
+            # caller-owned inputs: handed over once, compared afterwards (an all-False mask must stay all False ...)
+            dd, ee, mm = _cp(data), _cp(error), _cp(mask)
+            tbl = aperture_photometry(dd, ap, error=ee, mask=mm, **kw)
+            case.check(core.exact(dd, data) and (ee is None or core.exact(ee, error))
+                       and (mm is None or np.array_equal(mm, mask)), 'inputs_unchanged_by_call',
+                       dict(base, mask=g['maskkind']))
+            if rng.random() < 0.5:
+                _second_use(case, tbl, lambda: aperture_photometry(_cp(data), ap, error=_cp(error), mask=_cp(mask),
+                                                                   **kw), ap, snap0, dict(base, form='array'))
         case.note('call_form:' + form)
     mech = dict(base, form=form)
     ora_t = ora
@@ -397,6 +442,21 @@ def run_case(case):
         _rel_poke(case, rng, ap, data, error, mask, ora, kw, s2, e2, a2, base)
     if cls != 'sky' and (cls in ('inside', 'edge', 'multi') or rng.random() < 0.2):
         _rel_reassign(case, rng, kind, params, ap, data, error, mask, kw, base)
+
+
+def _second_use(case, first, call, obj, snap_before, mech):
+    """The same aperture object used for a second request gives the same table, and its parameters are what they
+    were before the first use."""
+    second = call()
+    case.note('axis2_second_use')
+    ok = second.colnames == first.colnames
+    for c in first.colnames:
+        if ok and c != 'sky_center':
+            ok = core.exact(_vals(second[c]), _vals(first[c]))
+    case.check(ok, 'second_use_equals_first_use', dict(mech, api='aperture_photometry'),
+               first=_vals(first['aperture_sum']), second=_vals(second['aperture_sum']))
+    case.check(G.ap_snapshot(obj) == snap_before, 'aperture_parameters_unchanged_by_use', mech,
+               before=repr(snap_before)[:300], after=repr(G.ap_snapshot(obj))[:300])
 
 
 def _rel_theta_and_center(case, rng, kind, params, theta_mine, labels, ap, data, error, mask, ora, kw, s2, e2, a2, base):
@@ -536,8 +596,13 @@ def _make_sky(case, rng, kind, params, positions, scalar, wcs, scale, base):
                       rng=rng if rng.random() < 0.6 else None, labels=slabels)
     for k, lab in slabels.items():
         case.note(('form_sky_theta:' if k == 'theta' else 'form_sky_length:') + lab)
+    sky._pv_snapshot = G.ap_snapshot(sky)          # parameters before the first conversion / use
     ap = sky.to_pixel(wcs)
     mech = dict(base, form='to_pixel')
+    # converting the same sky aperture a second time gives the same pixel aperture, and leaves it unchanged
+    ap_again = sky.to_pixel(wcs)
+    case.check(G.ap_snapshot(ap_again) == G.ap_snapshot(ap), 'second_use_equals_first_use', dict(mech, api='to_pixel'),
+               first=repr(ap)[:200], second=repr(ap_again)[:200])
     # positions: world_to_pixel of the sky positions (trusted astropy call)
     xp, yp = wcs.world_to_pixel(sky.positions)
     case.close(np.atleast_2d(ap.positions), np.transpose([np.atleast_1d(xp), np.atleast_1d(yp)]),
@@ -803,6 +868,13 @@ def _rel_singles(case, rng, kind, params, ap, data, error, mask, kw, tbl, s2, e2
     if one_t:
         case.close(_vals(tbl['aperture_sum'])[:len(one_t)], np.array(one_t), 'many_positions_equal_singles_table',
                    mech=mech)
+    # axis (xi): index lists with duplicates / descending order / several integer dtypes
+    idx = np.sort(rng.integers(0, len(pos), size=int(rng.integers(1, 5))))[::-1]
+    form = str(rng.choice(['list', 'int32', 'uint8', 'int64', 'tuple_as_list']))
+    sel = idx.tolist() if form in ('list', 'tuple_as_list') else idx.astype(form)
+    s_i, _ = ap[sel].do_photometry(_cp(data), error=_cp(error), mask=_cp(mask), **kw)
+    case.note('axis2_index_list:' + form + ('_dup' if len(set(idx.tolist())) < len(idx) else ''))
+    case.close(_vals(s_i), _vals(s2)[idx], 'index_list_equals_rows', mech=dict(mech, index=form))
     # indexing the aperture gives the same numbers as well
     k = int(rng.integers(0, len(pos)))
     s, _ = ap[k].do_photometry(_cp(data), error=_cp(error), mask=_cp(mask), **kw)
